@@ -1,13 +1,13 @@
 SPECIFICATION MCSpec
 CONSTANTS
   Cases = {}
-  W64 = 4194304
-  W32 = 4096
+  W64 = 67108864
+  W32 = 0
   BW = 1000
-  Bases = {0, 1, 13}
-  Rates = {0, 1, 999, 1000, 1001, 2500, 500000, 999999, 1000000}
-  IBaseMags = {0, 1, 7}
-  IRateMags = {0, 1, 999, 1000, 500000, 999999, 1000000}
-  Heights = {0, 100, 4090, 4093}
+  Bases = {0}
+  Rates = {2500}
+  IBaseMags = {0}
+  IRateMags = {500000}
+  Heights = {100}
 INVARIANTS F5Free
 CHECK_DEADLOCK FALSE
